@@ -638,15 +638,23 @@ class DoctestParser:
             # to fix #108
             # Only iterate through non-empty lines otherwise tokenize will stop short
             # TODO: we probably could just save the tokens if we got them earlier?
+            def _has_semicolon(lines):
+                iterable = (line for line in lines if line)
+                def _readline():
+                    return next(iterable)
+                return any(t.type == tokenize.OP and t.string == ';'
+                           for t in tokenize.generate_tokens(_readline))
             # Only the final statement is evaluated, so only its lines matter
             final_lines = exec_source_lines[ps1_linenos[-1]:] if ps1_linenos else exec_source_lines
-            iterable = (line for line in final_lines if line)
-            def _readline():
-                return next(iterable)
+            try:
+                has_semicolon = _has_semicolon(final_lines)
+            except (tokenize.TokenError, SyntaxError):
+                # The final statement starts in the middle of a line that
+                # ends a multi-line construct, scan the entire chunk instead.
+                has_semicolon = _has_semicolon(exec_source_lines)
             # We cannot eval a statement with a semicolon in it
             # Single should work.
-            if any(t.type == tokenize.OP and t.string == ';'
-                   for t in tokenize.generate_tokens(_readline)):
+            if has_semicolon:
                 mode_hint = 'single'
 
         return ps1_linenos, mode_hint
